@@ -11,3 +11,7 @@ package security
 //@   mode nopanic=off
 //@   at[present] fieldaddr UserGroupInformation.User#*: assert base != nil
 //@   at[presentg] fieldaddr UserGroupInformation.Groups#*: assert base != nil
+// a user name that came with the message is never replaced (only a missing one is synthesized for a forced application):
+// recovered applications stay booked under their own user
+//@   ensures[userkept:C12] ugi != nil && old(ugi.User) != "" ==> ugi.User == old(ugi.User)
+//@   ensures[named:C12] err == nil && ugi != nil && old(ugi.User) != "" && ncalls(security.UserGroupCache.GetUserGroup) == 0 ==> ug.User == old(ugi.User)
